@@ -241,6 +241,63 @@ def h_outbound_late_raising(n):
     return h
 
 
+def h_handler_raises(n):
+    """requests whose (synchronous) application handler raises: the node answers 5012 itself"""
+    h = Hist(cfg2())
+    cid = h.established()
+    for _ in range(n):
+        h.recv(cid, dict(kind="req", host="cli0.example.net", raises=True))
+    return h
+
+
+class THist:
+    """histories on a node with a THREADING application (tools/props/c14.TRun)"""
+    def __init__(self, limit):
+        from props import c14
+        self.r = c14.TRun(5, limit)
+        self.r.shutdown = self.r.sim.shutdown
+        self.cfg, self.events, self.obs = None, [], []
+
+    def end_all(self):
+        for rem in self.r.remotes:
+            if not rem.closed_by_node and not getattr(rem, "closed", False):
+                try:
+                    rem.close()
+                except Exception:   # noqa
+                    pass
+        self.r.sim.run()
+        self.r.sim.advance(7)
+        self.r.sim.advance(7)
+
+
+def h_threading_unroutable(n):
+    """the requester goes away while the handler still works on its request: the answer cannot be routed (N times)"""
+    h = THist(limit=0)
+    hbh = 100
+    for k in range(n):
+        cid, _ = h.r.connect("cli0.example.net")
+        hbh += 1
+        h.r.request(cid, hbh, "slow:answer")
+        h.r.remotes[cid].close()
+        h.r.sim.run()
+        h.r.release[hbh].set()
+        h.r.sim.run()
+        h.r.sim.advance(1)
+    return h
+
+
+def h_threading_outcomes(n):
+    """handlers that answer, answer nothing, raise - on typed and untyped commands"""
+    h = THist(limit=2)
+    cid, _ = h.r.connect("cli0.example.net")
+    hbh = 100
+    for k in range(n):
+        hbh += 1
+        h.r.request(cid, hbh, ["answer", "none", "raise", "raise!u", "none!u"][k % 5])
+        h.r.sim.advance(1)
+    return h
+
+
 def h_dwr_in(n):
     h = Hist(cfg2())
     cid = h.established()
@@ -421,6 +478,9 @@ KINDS = [("inbound request/answer", h_inbound, True), ("outbound request/answer"
          ("rejected retransmissions", h_retransmissions, True), ("outbound request answered after the timeout", h_outbound_late, True),
          ("outbound request answered after the timeout, unexpected-answer handler raises", h_outbound_late_raising, True),
          ("two connections close themselves at once", h_self_closing_pairs, False),
+         ("requests whose handler raises", h_handler_raises, True),
+         ("threading application: requester gone before the handler finishes", h_threading_unroutable, False),
+         ("threading application: handler outcomes", h_threading_outcomes, False),
          ("DWR from the peer", h_dwr_in, True), ("DWR from the node", h_dwr_out, True),
          ("rejected requests", h_rejected, True), ("connection closed by the peer", h_conn_peer_closes, True),
          ("connection ended by DPR", h_conn_dpr, True), ("connection closed by the node (watchdog)", h_conn_watchdog, True),
@@ -509,6 +569,11 @@ def check(run):
 
 
 def known(v, k):
+    if k["id"] == "C19-origin-waiting-never-answered":
+        c = v["case"]
+        diffs = c.get("differences") or []
+        return (v["clause"] == "grows-with-N" and c.get("kind") in k.get("history_kinds", [])
+                and bool(diffs) and all(d_[0] == "node._origin_waiting_answer" for d_ in diffs))
     return False
 
 
